@@ -1,5 +1,6 @@
 import Exetera.Props.C05
 import Exetera.Lemmas.CsvTypedRead
+import Exetera.Lemmas.CsvTypedRaise
 /-!
 # C05 ∘ C06 — the public entry point with a schema of typed columns: `typed import = C06.spec ∘ C05.spec`
 
@@ -20,7 +21,11 @@ whose importers are the models of `Model/Transforms.lean` fed, per kernel call, 
   any number of regrowths: every destination field is `typedSpec kind (whole column of cell texts)`;
 * `typed_chunk_size_unobservable`, `typed_companions_aligned` — corollaries;
 * `read_csv_typed_raises_partial` — when a cell is *not* acceptable to its importer (strict / allow_empty modes, impossible
-  dates): the importer-level half, and what exactly is raised; see the statement there.
+  dates): the importer-level half (kept);
+* `read_csv_typed_raises`, `read_file_typed_raises`, `typed_raise_chunk_size_unobservable`, `typed_reject_error_class` — the
+  full statement: the public entry point raises whenever a selected cell is rejected, for every `chunk_row_size` of the regime,
+  every window boundary and every regrowth; the error is what the importer raises (`rejErr`) on the FIRST rejected cell
+  (`index_map` order, then row order) of the FIRST kernel block that holds one; its class per importer kind and cell class.
 
 `KindOK` are C06's own assumptions on an importer definition (distinct category keys; the number parser rejects blank text
 and converts `str(invalid_value)` to `invalid_value`); `cellOK kind cell` says the importer does not raise on `cell`, decided
@@ -231,24 +236,24 @@ theorem typed_companions_aligned (k : FieldKind) (cells : List Csv.Bytes) (imp :
     exact ⟨by simp [Imp.lengths, this], fun _ h => by cases h⟩
 
 
-/- FULL STATEMENT (not proved at the level of the public entry point): `read_csv_typed_raises` — under the hypotheses of
-   `read_csv_typed_eq_spec` except that some selected column holds a cell its importer rejects (`¬ cellOK`),
-   `readCsv … = .error e` for every `chunk_row_size` of the regime, where `e` is the Python exception of a rejected cell
-   (`Exception` for bool, `ValueError` / `OverflowError` for int / float, `ValueError` for dates and datetimes).
+/- FULL STATEMENT (proved below as `read_csv_typed_raises`): under the hypotheses of `read_csv_typed_eq_spec` except that
+   some selected column holds a cell its importer rejects (`¬ cellOK`), `readCsv … = .error e` for every `chunk_row_size` of
+   the regime, where `e` is the Python exception of a rejected cell (`Exception` for bool, `ValueError` / `OverflowError` for
+   int / float, `ValueError` for dates and datetimes).
    What the code does: the importers run once per kernel call, in `index_map` order, on the block of cells of that call; the
    FIRST kernel call whose block holds a rejected cell raises, and among the columns of that block the first one in
    `index_map` order, and within the column the first rejected cell (`astypeAll` / `relaxedAll` / `cellsMapE` / `boolRows` stop
    at it). So WHETHER the import raises does not depend on where the chunk boundaries fall (it raises iff some selected cell
    is rejected: `read_csv_typed_eq_spec` gives the "if not"), but WHICH rejected cell is reported may: two rejected cells in
    different columns, the earlier row in the later column, are reported in row order when a block boundary separates them and
-   in column order when one block holds both. What is proved instead is the importer-level half: -/
+   in column order when one block holds both. The importer-level half, kept from before the driver-level lift was proved: -/
 /-- **read_csv_typed_raises_partial** (importer level). The importer of column `c`, in any state reached by consuming acceptable
     cells `D`, on staging buffers whose column `c` holds a block `E` containing at least one cell that its validation mode
     rejects: `import_part` returns an error — no out-of-bounds subscript is needed for that, nothing is appended — whatever
-    else `E` holds and wherever the block was cut; for a bool column the error is `Exception`. Missing for the full statement:
-    the lift through `read_file_using_fast_csv_reader`'s loop (the invariant `DI` with "no rejected cell among the records
-    consumed so far", ending in the first kernel call whose block holds one); the correspondence compares the error class of
-    the real import with the composed model on every `csv_typed` case with a rejected cell. -/
+    else `E` holds and wherever the block was cut; for a bool column the error is `Exception`. (What was missing for the full
+    statement — the lift through `read_file_using_fast_csv_reader`'s loop by the invariant `DI` extended with "no rejected
+    cell among the records consumed so far", ending in the first kernel call whose block holds one — is
+    `read_csv_typed_raises` below; this importer-level form is kept as an obligation.) -/
 theorem read_csv_typed_raises_partial (ncols : Nat) (kinds : Nat → FieldKind) (hkinds : ∀ c, c < ncols → KindOK (kinds c))
     (offs : List Nat) (inds : List (List Nat)) (vals : List Nat) (maxrow c : Nat) (D E : List Csv.Bytes) (hc : c < ncols)
     (hsh : Shape ncols maxrow offs inds vals) (hcol : ColOK offs inds vals c E)
@@ -260,6 +265,122 @@ theorem read_csv_typed_raises_partial (ncols : Nat) (kinds : Nat → FieldKind) 
   obtain ⟨e, he, hb⟩ := typed_part_rejects ncols kinds hkinds offs inds vals maxrow c D E hc hsh hcol hcaps hD hE
   simp only [typedF, hD', Option.getD_some] at he
   exact ⟨impD, e, hD', he, hb⟩
+
+/-! ### rejected cells: the import raises, whatever the chunking -/
+
+/-- **typed_reject_error_class.** `rejErr kind cell` is what the importer of `kind` raises on `cell` (`none` exactly when the
+    cell is acceptable, `cellOK`). Its class, per importer kind and class of the cell text:
+    * bool (strict: empty or unparseable; allow_empty: unparseable) → the `Exception` of `raiseNumericException`;
+    * int / float: an integer outside the dtype → `OverflowError` (every validation mode); an empty or unparseable text (when
+      the validation mode rejects it: `validation_mode_table`) → `ValueError`;
+    * datetime / date → `ValueError`. -/
+theorem typed_reject_error_class (k : FieldKind) (x : Csv.Bytes) :
+    (rejErr k x = none ↔ cellOK k x) ∧
+    ∀ e, rejErr k x = some e →
+      (∀ mode invalid, k = .bool mode invalid → e = .other "Exception") ∧
+      (∀ p mode it iv, k = .numeric p mode it iv →
+        (classOf p.parse (rstripNul x) = .outOfRange → e = .other "OverflowError") ∧
+        (KindOK k → classOf p.parse (rstripNul x) = .empty ∨ classOf p.parse (rstripNul x) = .garbage →
+          e = .valueError "cannot be converted")) ∧
+      (k = .datetime ∨ k = .date → ∃ m, e = .valueError m) :=
+  ⟨rejErr_none_iff k x, fun e h => rejErr_class k x e h⟩
+
+/-- **read_file_typed_raises** (driver level). `read_file_using_fast_csv_reader` on a file of C05's `Regime`, any starting
+    value budgets ≥ 1, fresh importers of the kinds `kinds (index_map[i])`, and at least one cell of an imported column that
+    its importer rejects: the call returns an error within the same fuel as the successful import; the error is what the
+    importer of column `c` raises on the cell `x` (`rejErr`), where — `Reported` — `d` records were imported by earlier kernel
+    calls without any rejected cell, the raising call staged the next `a` records, `c` is the first column in `index_map`
+    order whose cells in that block include a rejected one and `x` the first rejected cell of that column in the block. -/
+theorem read_file_typed_raises {file : List Nat} {crs ncols : Nat} {offs : List Nat} {hrow : List Cell}
+    {rows : List (List Cell)} (h : Regime file crs ncols hrow rows) (hb : Budgets ncols offs) (im : List Nat)
+    (him : ∀ c ∈ im, c < ncols) (kinds : Nat → FieldKind) (hkinds : ∀ c, c < ncols → KindOK (kinds c))
+    (hbad : ∃ c ∈ im, ∃ cell ∈ column (values rows) c, ¬ cellOK (kinds c) cell) (fuel : Nat)
+    (hfuel : rows.length + 2 + regrowthBound rows ncols offs (crs * Gen.Csv.CHUNK_ROW_FACTOR) ≤ fuel) :
+    ∃ (e : Err) (d a c : Nat) (x : Csv.Bytes),
+      readFile file crs ncols offs im (im.map (fun c => ({ kind := kinds c } : Imp))) fuel = .error e ∧
+      rejErr (kinds c) x = some e ∧ Reported rows im (fun c => cellOK (kinds c)) d a c x := by
+  obtain ⟨c0, hc0, cell0, hcell0, hno⟩ := hbad
+  obtain ⟨d, a, c, x, e, hrep, he, hrf⟩ := readFile_raise (F := typedF kinds) (good := fun c => cellOK (kinds c))
+    { isFile := h.isFile, hdr := h.hdr, tab := h.tab.2, nc := h.tab.1, crsPos := h.crsPos, reg := h.reg, imOk := him }
+    h.nonempty (impHom_typed ncols kinds hkinds) (impRej_typed ncols kinds hkinds)
+    (fun hall => hno (hall c0 hc0 cell0 hcell0)) hb.len hb.zero hb.pos fuel hfuel
+  have hinit : im.map (fun c => typedF kinds c []) = im.map (fun c => ({ kind := kinds c } : Imp)) := by
+    apply List.map_congr_left
+    intro c _
+    simp [typedF, typedSpec_nil]
+  rw [hinit] at hrf
+  exact ⟨e, d, a, c, x, hrf, he, hrep⟩
+
+/-- **read_csv_typed_raises** (the raising half of C06 at the public entry point). `read_csv_with_schema_dict` on a
+    well-formed file, ANY schema of importer kinds satisfying `KindOK`, any include / exclude lists of known names, EVERY
+    `chunk_row_size` of C05's `Regime`, the budgets the function computes and every regrowth they force, the fuel of the
+    successful import — and at least one cell of a selected column that its importer rejects (empty / unparseable in the
+    validation mode, out of the dtype's range, impossible date): the call returns an error `e`. So WHETHER the import raises
+    depends neither on `chunk_row_size` nor on the windows nor on regrowth. WHICH error: `e = rejErr (kind of column k) x` —
+    what that importer raises on the cell `x` (class: `typed_reject_error_class`) — where `x` is the first rejected cell of
+    column `k`, the first column in `index_map` order with a rejected cell, within the block of records `d … d+a-1` that the
+    first kernel call holding a rejected cell staged (`Reported`; no selected cell of the first `d` records is rejected).
+    `d` and `a` do depend on the chunking (see the example below: the same file raises `ValueError` with
+    `chunk_row_size = 2` and `OverflowError` with `chunk_row_size = 40`). -/
+theorem read_csv_typed_raises {file : List Nat} {crs ncols : Nat} {hrow : List Cell} {rows : List (List Cell)}
+    (names : List String) (schema : List (String × FieldKind)) (incl excl : Option (List String))
+    (hnames : names.length = ncols)
+    (hincl : ∀ l, incl = some l → ∀ k ∈ l, k ∈ names) (hexcl : ∀ l, excl = some l → ∀ k ∈ l, k ∈ names)
+    (hkinds : ∀ k ∈ names, KindOK (kindOf schema k)) (h : Regime file crs ncols hrow rows)
+    (hbad : ∃ k ∈ fieldsToUse names incl excl, ∃ cell ∈ column (values rows) (names.idxOf k),
+      ¬ cellOK (kindOf schema k) cell)
+    (fuel : Nat) (hfuel : rows.length + 2 + typedRegrowthBound rows names schema crs ≤ fuel) :
+    ∃ (e : Err) (d a : Nat) (k : String) (x : Csv.Bytes),
+      readCsv file names schema incl excl crs fuel = .error e ∧
+      k ∈ fieldsToUse names incl excl ∧ rejErr (kindOf schema k) x = some e ∧
+      Reported rows ((fieldsToUse names incl excl).map (fun k => names.idxOf k)) (fun c => cellOK (kindAt names schema c))
+        d a (names.idxOf k) x := by
+  obtain ⟨k0, hk0, cell0, hcell0, hno⟩ := hbad
+  obtain ⟨d, a, c, x, e, hrep, he, hrc⟩ := readCsv_typed_raise names schema incl excl hnames hincl hexcl h.isFile h.nonempty
+    h.hdr h.tab.2 h.tab.1 h.crsPos h.reg hkinds (fun hall => hno (hall k0 hk0 cell0 hcell0)) fuel
+    (by unfold typedRegrowthBound at hfuel; rw [hnames] at hfuel; exact hfuel)
+  obtain ⟨k, hk, rfl⟩ := List.mem_map.mp hrep.mem.1
+  have hmem : k ∈ names := (fieldsToUse_sublist names incl excl).subset hk
+  rw [kindAt_idxOf names schema k hmem] at he
+  exact ⟨e, d, a, k, x, hrc, hk, he, hrep⟩
+
+/-- **typed_raise_chunk_size_unobservable.** Two imports of the same file under the same typed schema with different
+    `chunk_row_size` (both in the supported regime): either both succeed, with the same row count and the same destination
+    fields (`typed_chunk_size_unobservable`), or both raise — and then each error is what the importer of some selected column
+    raises on some rejected cell of that column (not necessarily the same cell, hence not necessarily the same exception
+    class: see the example below). -/
+theorem typed_raise_chunk_size_unobservable {file : List Nat} {crs₁ crs₂ ncols : Nat} {hrow : List Cell}
+    {rows : List (List Cell)} (names : List String) (schema : List (String × FieldKind)) (incl excl : Option (List String))
+    (hnames : names.length = ncols)
+    (hincl : ∀ l, incl = some l → ∀ k ∈ l, k ∈ names) (hexcl : ∀ l, excl = some l → ∀ k ∈ l, k ∈ names)
+    (hkinds : ∀ k ∈ names, KindOK (kindOf schema k))
+    (h₁ : Regime file crs₁ ncols hrow rows) (h₂ : Regime file crs₂ ncols hrow rows)
+    (fuel : Nat) (hfuel₁ : rows.length + 2 + typedRegrowthBound rows names schema crs₁ ≤ fuel)
+    (hfuel₂ : rows.length + 2 + typedRegrowthBound rows names schema crs₂ ≤ fuel) :
+    (∃ o, readCsv file names schema incl excl crs₁ fuel = .ok o ∧ readCsv file names schema incl excl crs₂ fuel = .ok o) ∨
+    (∃ e₁ e₂, readCsv file names schema incl excl crs₁ fuel = .error e₁ ∧
+      readCsv file names schema incl excl crs₂ fuel = .error e₂ ∧
+      (∃ k ∈ fieldsToUse names incl excl, ∃ x ∈ column (values rows) (names.idxOf k), rejErr (kindOf schema k) x = some e₁) ∧
+      (∃ k ∈ fieldsToUse names incl excl, ∃ x ∈ column (values rows) (names.idxOf k), rejErr (kindOf schema k) x = some e₂)) := by
+  by_cases hok : ∀ k ∈ fieldsToUse names incl excl, ∀ cell ∈ column (values rows) (names.idxOf k),
+      cellOK (kindOf schema k) cell
+  · exact Or.inl (typed_chunk_size_unobservable names schema incl excl hnames hincl hexcl hkinds h₁ h₂ hok fuel hfuel₁ hfuel₂)
+  · right
+    have hbad : ∃ k ∈ fieldsToUse names incl excl, ∃ cell ∈ column (values rows) (names.idxOf k),
+        ¬ cellOK (kindOf schema k) cell := by
+      apply Classical.byContradiction
+      intro hne
+      apply hok
+      intro k hk cell hcell
+      apply Classical.byContradiction
+      intro hc
+      exact hne ⟨k, hk, cell, hcell, hc⟩
+    obtain ⟨e₁, _, _, k₁, x₁, hr₁, hk₁, he₁, hrep₁⟩ :=
+      read_csv_typed_raises names schema incl excl hnames hincl hexcl hkinds h₁ hbad fuel hfuel₁
+    obtain ⟨e₂, _, _, k₂, x₂, hr₂, hk₂, he₂, hrep₂⟩ :=
+      read_csv_typed_raises names schema incl excl hnames hincl hexcl hkinds h₂ hbad fuel hfuel₂
+    exact ⟨e₁, e₂, hr₁, hr₂, ⟨k₁, hk₁, x₁, hrep₁.mem.2.1, he₁⟩, ⟨k₂, hk₂, x₂, hrep₂.mem.2.1, he₂⟩⟩
+
 
 /-! ### non-vacuity: a file with a leaky categorical, an `int8` (allow_empty) and a date column, `chunk_row_size = 3` -/
 
@@ -385,5 +506,103 @@ example : (match readCsv (render (tyHeader :: tyRows)) ["a", "b", "c"]
            | .error (.valueError _) => true
            | _ => false) = true := by
   decide +kernel
+
+/-! ### non-vacuity of the raising theorems -/
+
+/-- all hypotheses of `read_csv_typed_raises` hold for the example file with column `b` imported as a strict `int8`
+    (`chunk_row_size = 3`): the empty cell of the second record is rejected, the theorem applies -/
+example : ∃ (e : Err) (d a : Nat) (k : String) (x : Csv.Bytes),
+    readCsv (render (tyHeader :: tyRows)) ["a", "b", "c"] [("b", .numeric (.intRange (-128) 127) .strict [48] (.int 0))]
+      none none 3 12 = .error e ∧
+    k ∈ fieldsToUse ["a", "b", "c"] none none ∧
+    rejErr (kindOf [("b", .numeric (.intRange (-128) 127) .strict [48] (.int 0))] k) x = some e ∧
+    Reported tyRows ((fieldsToUse ["a", "b", "c"] none none).map (fun k => ["a", "b", "c"].idxOf k))
+      (fun c => cellOK (kindAt ["a", "b", "c"] [("b", .numeric (.intRange (-128) 127) .strict [48] (.int 0))] c))
+      d a (["a", "b", "c"].idxOf k) x := by
+  have hk : ∀ k ∈ ["a", "b", "c"],
+      KindOK (kindOf [("b", .numeric (.intRange (-128) 127) .strict [48] (.int 0))] k) := by
+    intro k hk
+    simp only [List.mem_cons, List.not_mem_nil, or_false] at hk
+    rcases hk with rfl | rfl | rfl
+    · trivial
+    · exact ⟨fun t h => by simp [NumParser.parse, parseIntRange_blank _ _ t h], by decide⟩
+    · trivial
+  exact read_csv_typed_raises (ncols := 3) ["a", "b", "c"] _ none none rfl (fun _ h => by cases h) (fun _ h => by cases h) hk
+    tyRegime ⟨"b", by decide, [], by decide, by decide⟩ 12 (by decide +kernel)
+
+/-- the error of that empty cell: strict mode, class `empty` → `ValueError` -/
+example : rejErr (.numeric (.intRange (-128) 127) .strict [48] (.int 0)) [] = some (.valueError "cannot be converted") := by
+  decide
+
+/-- **which rejected cell is reported depends on the chunking.** Header `a,b`, records `1,x` / `300,2`, both columns strict
+    `int8`: `x` (column `b`, first record) is unparseable → `ValueError`; `300` (column `a`, second record) is outside the
+    dtype → `OverflowError`. With `chunk_row_size = 2` (window 8 bytes: one record per kernel call) the first block holds
+    only the first record and the import raises `ValueError`; with `chunk_row_size = 40` one block holds both records, the
+    importer of column `a` runs first and the import raises `OverflowError`. Both raise: `typed_raise_chunk_size_unobservable`. -/
+def rjHeader : List Cell := [⟨false, [97]⟩, ⟨false, [98]⟩]
+def rjRows : List (List Cell) := [[⟨false, [49]⟩, ⟨false, [120]⟩], [⟨false, [51, 48, 48]⟩, ⟨false, [50]⟩]]
+def rjInt : FieldKind := .numeric (.intRange (-128) 127) .strict [48] (.int 0)
+
+example : (match readCsv (render (rjHeader :: rjRows)) ["a", "b"] [("a", rjInt), ("b", rjInt)] none none 2 12 with
+           | .error e => decide (e = .valueError "cannot be converted")
+           | .ok _ => false) = true := by decide +kernel
+example : (match readCsv (render (rjHeader :: rjRows)) ["a", "b"] [("a", rjInt), ("b", rjInt)] none none 40 12 with
+           | .error e => decide (e = .other "OverflowError")
+           | .ok _ => false) = true := by decide +kernel
+example : rejErr rjInt [120] = some (.valueError "cannot be converted") ∧ rejErr rjInt [51, 48, 48] = some (.other "OverflowError") := by
+  decide
+
+theorem rjRegime (crs : Nat) (h : 2 ≤ crs) : Regime (render (rjHeader :: rjRows)) crs 2 rjHeader rjRows := by
+  refine ⟨Or.inl rfl, by decide, ⟨rfl, ?_⟩, ⟨by decide, ?_⟩, by omega, ?_⟩
+  · intro c hc
+    simp only [rjHeader, List.mem_cons, List.not_mem_nil, or_false] at hc
+    rcases hc with h | h <;> subst h <;> simp [Cell.WF] <;> decide
+  · intro r hr
+    simp only [rjRows, List.mem_cons, List.not_mem_nil, or_false] at hr
+    rcases hr with h | h <;> subst h <;> refine ⟨rfl, ?_⟩ <;> intro c hc <;>
+      simp only [List.mem_cons, List.not_mem_nil, or_false] at hc <;> rcases hc with h | h <;> subst h <;>
+      simp [Cell.WF] <;> decide
+  · intro l hl
+    have hw : 8 ≤ crs * Gen.Csv.CHUNK_ROW_FACTOR * 2 := by
+      have : Gen.Csv.CHUNK_ROW_FACTOR = 2 := rfl
+      rw [this]; omega
+    simp only [rjHeader, rjRows, List.mem_cons, List.not_mem_nil, or_false] at hl
+    rcases hl with h | h | h <;> subst h <;> exact Nat.le_trans (by decide) hw
+
+/-- `typed_raise_chunk_size_unobservable` applies to the two chunk sizes of that example -/
+example : (∃ o, readCsv (render (rjHeader :: rjRows)) ["a", "b"] [("a", rjInt), ("b", rjInt)] none none 2 12 = .ok o ∧
+      readCsv (render (rjHeader :: rjRows)) ["a", "b"] [("a", rjInt), ("b", rjInt)] none none 40 12 = .ok o) ∨
+    (∃ e₁ e₂, readCsv (render (rjHeader :: rjRows)) ["a", "b"] [("a", rjInt), ("b", rjInt)] none none 2 12 = .error e₁ ∧
+      readCsv (render (rjHeader :: rjRows)) ["a", "b"] [("a", rjInt), ("b", rjInt)] none none 40 12 = .error e₂ ∧
+      (∃ k ∈ fieldsToUse ["a", "b"] none none, ∃ x ∈ column (values rjRows) (["a", "b"].idxOf k),
+        rejErr (kindOf [("a", rjInt), ("b", rjInt)] k) x = some e₁) ∧
+      (∃ k ∈ fieldsToUse ["a", "b"] none none, ∃ x ∈ column (values rjRows) (["a", "b"].idxOf k),
+        rejErr (kindOf [("a", rjInt), ("b", rjInt)] k) x = some e₂)) := by
+  have hk : ∀ k ∈ ["a", "b"], KindOK (kindOf [("a", rjInt), ("b", rjInt)] k) := by
+    intro k hk
+    simp only [List.mem_cons, List.not_mem_nil, or_false] at hk
+    rcases hk with rfl | rfl <;>
+      exact ⟨fun t h => by simp [NumParser.parse, parseIntRange_blank _ _ t h], by decide⟩
+  exact typed_raise_chunk_size_unobservable (ncols := 2) ["a", "b"] _ none none rfl (fun _ h => by cases h)
+    (fun _ h => by cases h) hk (rjRegime 2 (by omega)) (rjRegime 40 (by omega)) 12 (by decide +kernel) (by decide +kernel)
+
+/-- the driver-level theorem applies to the same file with one-byte starting budgets -/
+example : ∃ (e : Err) (d a c : Nat) (x : Csv.Bytes),
+    readFile (render (rjHeader :: rjRows)) 2 2 [0, 1, 2] [0, 1] ([0, 1].map (fun _ => ({ kind := rjInt } : Imp))) 40 = .error e ∧
+    rejErr rjInt x = some e ∧ Reported rjRows [0, 1] (fun _ => cellOK rjInt) d a c x := by
+  have hb : Budgets 2 [0, 1, 2] := by
+    refine ⟨rfl, rfl, ?_⟩
+    intro c hc
+    have : c = 0 ∨ c = 1 := by omega
+    rcases this with rfl | rfl <;> decide
+  exact read_file_typed_raises (rjRegime 2 (by omega)) hb [0, 1] (by decide) (fun _ => rjInt)
+    (fun _ _ => ⟨fun t h => by simp [NumParser.parse, parseIntRange_blank _ _ t h], by decide⟩)
+    ⟨1, by decide, [120], by decide, by decide⟩ 40 (by decide +kernel)
+
+/-- a bool column: strict mode rejects the empty cell, the public entry point raises `Exception` -/
+example : rejErr (.bool .strict false) [] = some (.other "Exception") := by decide
+example : (match readCsv (render (tyHeader :: tyRows)) ["a", "b", "c"] [("b", .bool .strict false)] none none 3 12 with
+           | .error e => decide (e = .other "Exception")
+           | .ok _ => false) = true := by decide +kernel
 
 end Exetera.Props.C05
